@@ -220,6 +220,39 @@ def _n(variant):
     return {"A": 4, "B": 2, "E": 0}[variant]
 
 
+ONE_OF = "one-of"
+FOREIGN_ROWS = [0]       # unit-level rows compared whose own unit_id differed from the key they were saved under
+
+
+def own_unit_ids(i, variant):
+    """The unit_id each row of a unit-level item brings along, by row position: the save key itself, the id of another
+    saved unit, none at all, an id nobody is saved under. (Callers of lian always bring the key; the loader's contract on the
+    unchanged tree is that the rows belong to the key they are saved under whatever the column says, and that it overwrites
+    the column with the key. What must survive is the row; for the column both the key and the row's own value are accepted.)"""
+    other = i % 3 + 1
+    return {"A": [i, other, None, 77], "B": [other, i], "E": []}[variant]
+
+
+def _unit_id_expectation(i, own):
+    allowed = sorted({i} | ({own} if own is not None else set()))
+    return i if len(allowed) == 1 else {ONE_OF: allowed}
+
+
+def reconcile_unit_rows(got, want):
+    """Where the expectation admits several unit_id values for a row and the row read has one of them, take it as matched."""
+    if not (isinstance(got, list) and isinstance(want, list) and len(got) == len(want)):
+        return got
+    out = []
+    for g, w in zip(got, want):
+        if isinstance(g, dict) and isinstance(w, dict) and isinstance(w.get("unit_id"), dict) and ONE_OF in w["unit_id"]:
+            FOREIGN_ROWS[0] += 1
+            if g.get("unit_id") in w["unit_id"][ONE_OF]:
+                g = dict(g)
+                g["unit_id"] = w["unit_id"]
+        out.append(g)
+    return out
+
+
 def build_gir(i, variant):
     base = 100 * i
     rows = [
@@ -230,15 +263,23 @@ def build_gir(i, variant):
     ]
     if variant == "B":
         rows = [rows[0], {"operation": "return_stmt", "stmt_id": base + 9, "parent_stmt_id": base + 1, "name": "x"}]
-    return [dict(r) for r in rows[:_n(variant)]]
+    out = []
+    for r, own in zip(rows[:_n(variant)], own_unit_ids(i, variant)):
+        r = dict(r)
+        if own is not None:
+            r["unit_id"] = own
+        out.append(r)
+    return out
 
 
 def canon_saved_gir(i, variant):
     out = []
-    for r in build_gir(i, variant):
+    for r, own in zip(build_gir(i, variant), own_unit_ids(i, variant)):
         r = dict(r)
-        r["unit_id"] = i
-        out.append(row_dict(r))
+        r.pop("unit_id", None)
+        r = row_dict(r)
+        r["unit_id"] = _unit_id_expectation(i, own)
+        out.append(r)
     return out
 
 
@@ -248,24 +289,29 @@ def build_scope(i, variant):
     space = cs.ScopeSpace()
     base = 100 * i
     items = [
-        cs.Scope(unit_id=i, stmt_id=0, scope_id=-1, parent_stmt_id=-1, scope_kind=K.UNIT_KIND),
-        cs.Scope(unit_id=i, stmt_id=base + 1, scope_id=0, parent_stmt_id=0, scope_kind=K.METHOD_KIND, name="f%d" % i, attrs="['public']"),
-        cs.Scope(unit_id=i, stmt_id=base + 2, scope_id=base + 1, parent_stmt_id=base + 1, scope_kind=K.PARAMETER_DECL, name="p"),
-        cs.Scope(unit_id=i, stmt_id=base + 5, scope_id=0, parent_stmt_id=0, scope_kind=K.IMPORT_STMT, name="m", source="pkg", alias="m"),
+        cs.Scope(stmt_id=0, scope_id=-1, parent_stmt_id=-1, scope_kind=K.UNIT_KIND),
+        cs.Scope(stmt_id=base + 1, scope_id=0, parent_stmt_id=0, scope_kind=K.METHOD_KIND, name="f%d" % i, attrs="['public']"),
+        cs.Scope(stmt_id=base + 2, scope_id=base + 1, parent_stmt_id=base + 1, scope_kind=K.PARAMETER_DECL, name="p"),
+        cs.Scope(stmt_id=base + 5, scope_id=0, parent_stmt_id=0, scope_kind=K.IMPORT_STMT, name="m", source="pkg", alias="m"),
     ]
     if variant == "B":
-        items = [items[0], cs.Scope(unit_id=i, stmt_id=base + 7, scope_id=0, parent_stmt_id=0, scope_kind=K.CLASS_KIND, name="C", supers="['B']")]
-    for it in items[:_n(variant)]:
+        items = [items[0], cs.Scope(stmt_id=base + 7, scope_id=0, parent_stmt_id=0, scope_kind=K.CLASS_KIND, name="C", supers="['B']")]
+    for it, own in zip(items[:_n(variant)], own_unit_ids(i, variant)):
+        if own is not None:
+            it.unit_id = own        # else the dataclass default -1, which Scope.to_dict() emits
         space.add(it)
     return space
 
 
-def canon_scope_obj(space):
-    """Canonical content of a ScopeSpace computed from the dataclass fields (not through Scope.to_dict)."""
+def canon_scope_saved(i, variant):
+    """Canonical content of the ScopeSpace computed from the dataclass fields (not through Scope.to_dict)."""
     out = []
-    for s in space:
+    for s in build_scope(i, variant):
         d = {f.name: getattr(s, f.name) for f in dataclasses.fields(s)}
-        out.append(row_dict(d))
+        own = d.pop("unit_id")
+        d = row_dict(d)
+        d["unit_id"] = _unit_id_expectation(i, own)
+        out.append(d)
     return out
 
 
@@ -273,22 +319,24 @@ def build_export_symbols(i, variant):
     cs = _cs()
     base = 100 * i
     items = [
-        cs.SymbolNodeInImportGraph(0, 10, base + 1, "f%d" % i, i),
-        cs.SymbolNodeInImportGraph(0, 11, base + 7, "C", i),
-        cs.SymbolNodeInImportGraph(base + 7, 10, base + 8, "m", i),
-        cs.SymbolNodeInImportGraph(0, 17, -(base + 9), "ext", -1),
+        cs.SymbolNodeInImportGraph(0, 10, base + 1, "f%d" % i),
+        cs.SymbolNodeInImportGraph(0, 11, base + 7, "C"),
+        cs.SymbolNodeInImportGraph(base + 7, 10, base + 8, "m"),
+        cs.SymbolNodeInImportGraph(0, 17, -(base + 9), "ext"),
     ]
     if variant == "B":
-        items = [items[1], cs.SymbolNodeInImportGraph(0, 5, base + 11, "g", i)]
+        items = [items[1], cs.SymbolNodeInImportGraph(0, 5, base + 11, "g")]
+    for n, own in zip(items[:_n(variant)], own_unit_ids(i, variant)):
+        n.unit_id = own if own is not None else -1       # to_dict() emits the unit_id only when it is positive
     return items[:_n(variant)]
 
 
 def canon_export_symbols_saved(i, variant):
     out = []
-    for n in build_export_symbols(i, variant):
-        d = {"scope_id": n.scope_id, "symbol_type": n.symbol_type, "symbol_id": n.symbol_id, "symbol_name": n.symbol_name,
-             "unit_id": i}      # the loader stamps the unit the item was saved under
-        out.append(row_dict(d))
+    for n, own in zip(build_export_symbols(i, variant), own_unit_ids(i, variant)):
+        d = row_dict({"scope_id": n.scope_id, "symbol_type": n.symbol_type, "symbol_id": n.symbol_id, "symbol_name": n.symbol_name})
+        d["unit_id"] = _unit_id_expectation(i, own)
+        out.append(d)
     return out
 
 
@@ -535,7 +583,7 @@ class Family:
     """One loader family reachable through the public Loader API."""
 
     def __init__(self, name, attr, save, get, build, canon, subdir, idcol, kind="bundle", key=key_int,
-                 canon_saved=None, rowkey=None, idval=None, attrs=None):
+                 canon_saved=None, rowkey=None, idval=None, attrs=None, reconcile=None):
         self.name = name            # also the signature prefix: the loader class name + instance
         self.attr = attr            # Loader attribute holding the concrete loader (for paths / cache inspection)
         self.attrs = attrs or [attr]
@@ -549,6 +597,13 @@ class Family:
         self.idval = idval or (lambda k: k)     # value of the id column for key k
         self.kind = kind
         self.key = key
+        self.reconcile = reconcile  # optional (got, want) -> got with admissible alternatives resolved
+
+    def adjust(self, got, want):
+        return self.reconcile(got, want) if self.reconcile is not None else got
+
+    def matches(self, got, want):
+        return self.adjust(got, want) == want
 
     def expected(self, i, variant):
         if self.canon_saved is not None:
@@ -564,14 +619,14 @@ def _general_families():
 
     add("UnitGIRLoader", "_gir_loader",
         lambda L, k, v: L.save_unit_gir(k, v), lambda L, k: L.get_unit_gir(k),
-        build_gir, rows_of, "frontend", "unit_id", canon_saved=canon_saved_gir)
+        build_gir, rows_of, "frontend", "unit_id", canon_saved=canon_saved_gir, reconcile=reconcile_unit_rows)
     add("ScopeHierarchyLoader", "_scope_hierarchy_loader",
         lambda L, k, v: L.save_unit_scope_hierarchy(k, v), lambda L, k: L.get_unit_scope_hierarchy(k),
         build_scope, rows_of, "semantic_p1", "unit_id",
-        canon_saved=lambda i, v: canon_scope_obj(build_scope(i, v)))
+        canon_saved=canon_scope_saved, reconcile=reconcile_unit_rows)
     add("UnitIDToExportSymbolsLoader", "_unit_id_to_export_symbols_loader",
         lambda L, k, v: L.save_unit_export_symbols(k, v), lambda L, k: L.get_unit_export_symbols(k),
-        build_export_symbols, rows_of, "semantic_p1", "unit_id", canon_saved=canon_export_symbols_saved)
+        build_export_symbols, rows_of, "semantic_p1", "unit_id", canon_saved=canon_export_symbols_saved, reconcile=reconcile_unit_rows)
     add("UnitSymbolDeclSummaryLoader", "_symbol_name_to_scope_ids_loader",
         lambda L, k, v: L.save_unit_symbol_decl_summary(k, v), lambda L, k: L.get_unit_symbol_decl_summary(k),
         build_decl_summary, canon_decl_summary, "semantic_p1", "unit_id",
@@ -708,12 +763,13 @@ def index_key(fam, i):
     return k.to_tuple() if hasattr(k, "to_tuple") else k
 
 
-def check_files(L, fam, model):
+def check_files(L, fam, model, ever_saved=None):
     """After export + export_indexing: every item of `model` (i -> variant) must be found by an independent
     pandas reader in the bundle file that the index file names. Returns list of (class, detail, i)."""
     import pandas as pd
     problems = []
     stats = {"items": 0, "bundles": set()}
+    orphan_checked = set()
     cols, fn = filekeys(fam)
     for attr in fam.attrs:
         gl = getattr(L, attr)
@@ -746,6 +802,16 @@ def check_files(L, fam, model):
                 problems.append(("bundle-file-unreadable[%s]" % type(df).__name__,
                                  "%s: %s" % (os.path.basename(gl.get_bundle_path(b)), str(df)[:200]), i))
                 continue
+            if ever_saved is not None and (attr, b) not in orphan_checked and fam.idcol in df.columns:
+                orphan_checked.add((attr, b))
+                try:
+                    filed = {norm(x) for x in df[fam.idcol].tolist()}
+                    orphans = sorted(x for x in filed if x not in ever_saved)
+                except Exception:
+                    orphans = []
+                if orphans:
+                    problems.append(("rows-filed-under-a-key-never-saved", "bundle %d holds rows under %s = %s; saved keys are %s"
+                                     % (b, fam.idcol, orphans[:4], sorted(ever_saved)[:6]), i))
             want = fn(i, variant)
             if fam.idcol not in df.columns:
                 if len(want) == 0:
@@ -868,6 +934,28 @@ def is_empty_canon(c):
     return False
 
 
+def row_membership(got, want):
+    """For items that are lists of rows: which rows (identified by everything but the unit_id column) are missing from or
+    foreign to the read. None when the row sets agree (or the values are no row lists)."""
+    import collections
+    if not (isinstance(got, list) and isinstance(want, list) and got + want and all(isinstance(r, dict) for r in got + want)):
+        return None
+
+    def ident(r):
+        return json.dumps({k: v for k, v in r.items() if k != "unit_id"}, sort_keys=True, default=str)
+    g, w = collections.Counter(ident(r) for r in got), collections.Counter(ident(r) for r in want)
+    lost, gained = w - g, g - w
+    if not lost and not gained:
+        return None
+    tags = []
+    if lost:
+        foreign = all(isinstance(r.get("unit_id"), dict) for r in want if ident(r) in lost)
+        tags.append("rows-lost[%s]" % ("own-unit_id-differs-from-the-save-key" if foreign else "any"))
+    if gained:
+        tags.append("rows-of-another-save-gained")
+    return "+".join(tags)
+
+
 def stage_of(src, read):
     """The shortest operation sequence that reaches the place the wrong value came from."""
     if read == "freshget":
@@ -961,6 +1049,7 @@ class HistoryRun:
         if want_variant == UNSPEC:
             return
         want = self.fam.expected(i, want_variant)
+        got = self.fam.adjust(got, want)
         if got == want:
             return
         if src == "bundle-file":
@@ -1015,7 +1104,8 @@ class HistoryRun:
         self.op_index()
         spec = {i: v for i, v in self.model.items() if v != UNSPEC}
         with Capture():
-            problems, stats = check_files(self.L, self.fam, spec)
+            problems, stats = check_files(self.L, self.fam, spec,
+                                          ever_saved={norm(self.fam.idval(self.fam.key(j))) for j in self.versions})
         self.nbundles = stats["bundles"]
         famname = self.fam.name.split("[")[0]
         for cls, detail, i in problems:
@@ -1061,13 +1151,16 @@ class HistoryRun:
         # exactly an older saved version of the same item?
         vers = self.versions.get(i, [])
         for v in reversed(vers[:-1]):
-            if v != want_variant and fam.expected(i, v) == got:
+            if v != want_variant and fam.matches(got, fam.expected(i, v)):
                 return self.fail("stale-content[%s]" % src, famname, "save-resave-" + stage[5:], detail, i, step, source=src)
         if is_empty_canon(got) and not is_empty_canon(want):
             return self.fail("item-emptied", famname, stage, detail, i, step, source=src)
         for j in IDS:
-            if j != i and any(fam.expected(j, v) == got for v in ("A", "B")):
+            if j != i and any(fam.matches(got, fam.expected(j, v)) for v in ("A", "B")):
                 return self.fail("other-items-content[%s]" % src, famname, stage, detail, i, step, source=src)
+        rows = row_membership(got, want)
+        if rows is not None:
+            return self.fail(rows, famname, stage, detail, i, step, source=src)
         leaves = sorted(leaf_diff(got, want))
         self.fail("fields-differ[%s]" % ",".join(leaves[:6]), famname, stage, detail, i, step, source=src)
 
@@ -1295,7 +1388,7 @@ def run_fault_history(fam_name, cfg, history, ws_root, mode, n):
                             if isinstance(e, KeyboardInterrupt):
                                 raise
                             got = "raised"
-                        if got != "raised" and got != fam.expected(i, run.model[i]):
+                        if got != "raised" and not fam.matches(got, fam.expected(i, run.model[i])):
                             lost.append(i)
                 try:
                     L2 = new_loader(ws)
@@ -1309,7 +1402,7 @@ def run_fault_history(fam_name, cfg, history, ws_root, mode, n):
                             if isinstance(e, KeyboardInterrupt):
                                 raise
                             got = "raised"
-                        if got != "raised" and got != fam.expected(i, run.model[i]):
+                        if got != "raised" and not fam.matches(got, fam.expected(i, run.model[i])):
                             lost.append(i)
                 except BaseException as e:
                     if isinstance(e, KeyboardInterrupt):
